@@ -15,9 +15,19 @@ pub struct MeshBuilder {
     /// `usize::MAX` is used a marker for an unmapped vertex
     map: Vec<usize>,
     out: Mesh,
+    /// Flip triangle winding (the octree's vertices were mirrored)
+    flip: bool,
 }
 
 impl MeshBuilder {
+    /// Builds an empty mesh builder, optionally flipping triangle winding
+    pub fn new(flip: bool) -> Self {
+        Self {
+            flip,
+            ..Default::default()
+        }
+    }
+
     pub fn take(self) -> Mesh {
         self.out
     }
@@ -57,6 +67,7 @@ impl MeshBuilder {
     /// The vertices are given in a clockwise winding with the intersection
     /// vertex (i.e. the one on the edge) always last.
     pub(crate) fn triangle(&mut self, a: usize, b: usize, c: usize) {
+        let (b, c) = if self.flip { (c, b) } else { (b, c) };
         self.out.triangles.push(nalgebra::Vector3::new(a, b, c))
     }
 
